@@ -91,6 +91,87 @@ CLAIMS['C20'] = dict(
     ref='DESIGN.md §2 C20',
     technique='bounded symbolic execution (CrossHair on z3) + one z3 query on an AST-translated kernel')
 
+CLAIMS['C02'] = dict(
+    text='Requests assembled from components the harness owns (method incl. a symbolic token, absolute-form target with symbolic path '
+         'bytes, headers with symbolic case/value/optional whitespace, Proxy-Connection / Proxy-Authorization / operator-disabled headers, '
+         'Content-Length or chunked bodies incl. the empty chunked body) are fed to the real handler whole and cut at every body position, as '
+         'first and as second request of the connection; the bytes queued for the origin are read by an independent reference reader and '
+         'compared field-wise (method, origin-form target, version, header multiset, Via present, hop-by-hop/disabled absent, decoded body, '
+         'self-consistent framing).',
+    note='Trusted: CrossHair + z3, plugin models, reference reader (cross-checked against h11 each run), FakeSocket/connect stub.',
+    ref='DESIGN.md §2 C02, §7')
+CLAIMS['C04'] = dict(
+    text='1-2 (thorough 3) requests on one connection through the real executor loop in three roles (forward proxy, web route, reverse '
+         'proxy), same/different origins, with/without bodies, packed one per segment / all in one segment / split around the boundary; '
+         'upstream stubs answer every complete request; asserts one response per request, in order, from the named origin, requests intact at '
+         'each upstream, connection kept. THREE OPEN KNOWN FINDINGS mask the shared-segment, other-origin and reverse-proxy follow-up '
+         'obligations (see known_findings.json); what is currently discharged is the one-request-per-segment behaviour of the forward proxy '
+         '(same origin) and of web routes.',
+    note='Trusted: CrossHair + z3, executor kit (FakeLoop/FakeSelector/FakeSocket), reference reader. Obligations matching a known finding are '
+         'reported as masked_by_known_findings, not as discharged.',
+    ref='DESIGN.md §2 C04, §7.6')
+CLAIMS['C05'] = dict(
+    text='Real Threadless._run_once with two works: a canary running a fixed forward-proxy exchange and an adversary whose request bytes '
+         '(one arbitrary byte per run in 11 templates, incl. non-UTF-8), client-side abort (EOF/reset/EIO/EPIPE), upstream connect outcome '
+         '(refused/timeout/resolution failure/unreachable) and upstream abort are chosen per obligation/solver, in forward, web and reverse '
+         'roles; asserts no exception ever leaves the loop or _cleanup_inactive, the canary transcript equals its transcript when run alone, '
+         'and a connection accepted afterwards is served.',
+    note='Trusted: CrossHair + z3, executor kit; asyncio scheduling is stubbed (tasks complete when created), one adversary at a time.',
+    ref='DESIGN.md §2 C05')
+CLAIMS['C06'] = dict(
+    text='(a) totality: first-request bytes from 13 mutation templates with 2-5 arbitrary bytes in three roles; the outcome must be exactly '
+         'one of waiting / served / rejected-with-a-well-formed-canned-response-and-close / clean close, never a queued response on a kept '
+         'connection; (b) every response builder (build_http_response, okResponse, redirects, HttpRequestRejected.response) with symbolic '
+         'reason/header/body bytes is judged by the independent reference reader for syntax and length-vs-framing consistency.',
+    note='Trusted: CrossHair + z3, reference reader (cross-checked against h11 each run; canned packets additionally judged by h11 as '
+         'concrete vectors). Exceptions leaving handle_events count as "closed" here; their effect on the loop is C05.',
+    ref='DESIGN.md §2 C06')
+CLAIMS['C07'] = dict(
+    text='Real executor loop until the client socket is closed, for 8 causes of proxy-initiated close (400, unknown scheme, 407, web 404, '
+         'static reply, static 404, 502 after refused connect, upstream data followed by upstream EOF 0-3 iterations later in 1-4 segments) '
+         'with solver-chosen fair short-write classes on the first writes and small --max-sendbuf-size: bytes received at close() equal the '
+         'complete output, no read interest while flushing, no use after close, executor bookkeeping clean; threaded run()/_flush() variant.',
+    note='Trusted: CrossHair + z3, executor kit. Fairness (>=1 byte per write) is the property\'s own proviso.',
+    ref='DESIGN.md §2 C07')
+CLAIMS['C08'] = dict(
+    text='With --basic-auth (3 credentials) and a recording user plugin after auth: Proxy-Authorization absent, or the correct value with 1-3 '
+         'arbitrary bytes replaced/appended/prepended/inserted/truncated or another scheme token, two symbolic case bits in the header name, '
+         'methods incl. CONNECT. Reference decision written independently; unauthorised => exactly the 407 packet, close, no connect, no hook '
+         'of the later plugin; authorised => served and no Proxy-Authorization reaches the origin on the first or the second request.',
+    note='Trusted: CrossHair + z3, FakeSocket/connect stub; recording plugin loaded through the real flag/plugin loader.',
+    ref='DESIGN.md §2 C08')
+CLAIMS['C09'] = dict(
+    text='1-3 recording plugins with solver-chosen behaviour per (plugin, hook) in {pass, modify, drop, reject}; expected hook order, data '
+         'flow, upstream-connect count, forwarded request and client response computed by a reference fold of the documented semantics; '
+         'upstream-chunk and access-log chains; lifecycle hooks exactly once for 9 ways a connection ends on the real executor. A finite '
+         'behaviour table explored by forking: the solver decides path feasibility only.',
+    note='Trusted: CrossHair + z3, executor kit, reference reader.',
+    ref='DESIGN.md §2 C09')
+CLAIMS['C10'] = dict(
+    text='One connection at a time on the real executor for 6 scripts (forward keep-alive, tunnel, web route, web 404, reverse proxy, '
+         'garbage): every prefix followed by a client- or upstream-side abort (EOF, reset, EPIPE, EIO, timeout), connect failures, and idle '
+         'reaping under a jumped clock; afterwards every socket opened for the connection is closed and unused, selector map, works, '
+         'registered_events_by_work_ids and unfinished are empty; selected histories twice on the same executor.',
+    note='Trusted: CrossHair + z3, executor kit. Real descriptors, os.close(work_id) of remote executors and conn-pool mode are outside.',
+    ref='DESIGN.md §2 C10')
+CLAIMS['C11'] = dict(
+    text='RESTRICTED CLAIM (policy wiring only). With the ssl module and the openssl helpers stubbed by recorders: upstream context built from '
+         'the configured trust store with CERT_REQUIRED + check_hostname + server_hostname = CONNECT host unless --insecure-tls-interception; '
+         'on a failed upstream handshake nothing but the 200 acknowledgement is ever queued and the connection ends; leaf requested with '
+         'SAN = host, signed with the configured CA files, cached by host; client wrapped with it after the ack was flushed; plugin opt-out '
+         '= opaque byte-exact tunnel; decrypted requests forwarded over the verified session and the response returned intact.',
+    note='NOT claimed (not encodable): that OpenSSL verifies, that the leaf chains to the CA, real handshakes. Symbolic: host letters, both '
+         'handshake outcomes, cache state, opt-out, payload byte.',
+    ref='DESIGN.md §2 C11')
+CLAIMS['C12'] = dict(
+    text='Route table with static (1 and 3 URLs, explicit/default port, https, with/without path), overlapping, and dynamic routes (Url / '
+         'literal response); request path = concrete prefixes + 0-2 symbolic characters, solver-chosen upstream index, methods, a header, '
+         'body, --rewrite-host-header on/off: exactly one connect to (URL host, port or 80/443 by scheme), TLS wrap iff https, upstream path '
+         '= URL path, Host rewritten iff the option is on, other headers/body preserved, reply relayed unmodified; no route => 404 + close, '
+         'no connect.',
+    note='Trusted: CrossHair + z3 (regex matching kept symbolic by the engine), reference reader, TcpServerConnection.wrap recorder.',
+    ref='DESIGN.md §2 C12')
+
 NOT_BUILT = 'check not built yet in this session (work in progress; see DESIGN.md §2 for the plan)'
 NA = {
     'C17': 'mode equivalence depends on OS threads, processes and descriptor passing (send_handle/recv_handle, real select/accept), which '
